@@ -302,7 +302,10 @@ def run(ctx):
             info = {**info, "search_trials_made": obs["last_trials"], "max_search_trials": obs["grid_max"]}
             viol("rs.bound", f"rs_decomposition({kind}({theta!r}), eps={eps:g}): sequence is {d:.3e} from the target (up to phase) and the grid search was left after "
                  f"{obs['last_trials']} of {obs['grid_max']} trials with a fallback candidate (neither of the two documented exit conditions)", info,
-                 "rs:float64-floor" if eps < 2e-8 else "rs:search-aborted", observed=d, expected=eps)
+                 # the source can only hand over a below-target candidate after at least one grid problem was set up (the fallback list is
+                 # yielded after the search loop); one that arrives before any trial was accepted by a test other than dot >= target
+                 "rs:float64-floor" if eps < 2e-8 else ("rs:search-aborted" if obs["last_trials"] >= 1 else "rs:below-target-candidate-before-search"),
+                 observed=d, expected=eps)
             return
         viol("rs.bound", f"rs_decomposition({kind}({theta!r}), eps={eps:g}): sequence is {d:.3e} from the target in operator norm (up to phase) although the "
              f"search accepted a candidate before exhausting max_search_trials", info, "rs:bound", observed=d, expected=eps)
@@ -495,7 +498,9 @@ def run(ctx):
                     continue
                 if st == "aborted" and eps_cached <= eps_gate * (1 + 1e-9):
                     viol("ct.gate", f"gate RZ({ang!r}) inside clifford_t_decomposition: sequence {d:.3e} away (per-gate eps {eps_gate:.3e}); rs_decomposition left its "
-                         "grid search early with a fallback candidate", ginfo, "rs:float64-floor" if eps_cached < 2e-8 else "rs:search-aborted", observed=d, expected=eps_gate)
+                         "grid search early with a fallback candidate", ginfo,
+                         "rs:float64-floor" if eps_cached < 2e-8 else ("rs:search-aborted" if obs["last_trials"] >= 1 else "rs:below-target-candidate-before-search"),
+                         observed=d, expected=eps_gate)
                     limited = True
                     continue
             if meth == "sk":
